@@ -37,6 +37,8 @@ var c19KeepReq = regexp.MustCompile(`^return|stream\.Send\(|SendResponse\(|pipel
 // the group-by collect: the error branch of CollectTagValues and what it does with the error
 var c19KeepCollect = regexp.MustCompile(`CollectTagValues\(|^if err != nil|[sS]endResponse\(|^return|reduceTagValues\(`)
 
+var c19KeepBroker = regexp.MustCompile(`ErrMsg|tolerantNotFounds|JSONUnmarshal\(|ctx\.err =|expectResults|ctx\.results =|^return|^if err|completed\.|close\(ctx\.doneCh\)`)
+
 var c19KeepPlanNode = regexp.MustCompile(`^return|p\.op\.Execute\(\)|^if p\.op == nil|\.Stats\(\)`)
 
 // c19PlanNodeReturnsOpErr: the error variable is assigned only from p.op.Execute(); every return
@@ -239,7 +241,9 @@ func c19StepsKeep(body *ast.BlockStmt, keep *regexp.Regexp) []string {
 				}
 			case *ast.BlockStmt:
 				stmts(x.List, prefix)
-			case *ast.DeclStmt, *ast.IncDecStmt, *ast.BranchStmt, *ast.EmptyStmt:
+			case *ast.IncDecStmt:
+				emit(prefix, types.ExprString(x.X)+x.Tok.String())
+			case *ast.DeclStmt, *ast.BranchStmt, *ast.EmptyStmt:
 			default:
 				emit(prefix, fmt.Sprintf("other:%T", st))
 				out = append(out, prefix+fmt.Sprintf("other:%T", st))
@@ -469,6 +473,34 @@ func init() {
 		}
 		sb.WriteString("/-- functions of query/context other than SendResponse that call the unguarded sendResponse -/\n")
 		sb.WriteString("def unguardedSendResponseCallers : List String := " + LeanStrList(unguarded) + "\n\n")
+		// the broker side of a metadata query
+		_, mcf, err := ParseFile(repo, "query/context/metadata_context.go")
+		if err != nil {
+			return "", err
+		}
+		mh := FindFunc(mcf, "MetadataContext", "handleResponse")
+		if mh == nil {
+			return "", fmt.Errorf("MetadataContext.handleResponse not found")
+		}
+		mhSteps := c19StepsKeep(mh.Body, c19KeepBroker)
+		sb.WriteString("def metadataHandleResponseSteps : List String := " + LeanStrList(mhSteps) + "\n\n")
+		tol := false
+		for _, l := range mhSteps {
+			if strings.Contains(l, "tolerantNotFounds") || strings.Contains(l, "ErrMsg") {
+				tol = true
+			}
+		}
+		sb.WriteString("/-- MetadataContext.handleResponse has a branch on resp.ErrMsg / tolerantNotFounds -/\n")
+		sb.WriteString(fmt.Sprintf("def metadataToleratesErrMsg : Bool := %v\n\n", tol))
+		_, tcf, err := ParseFile(repo, "query/context/task_context.go")
+		if err != nil {
+			return "", err
+		}
+		tcl := FindFunc(tcf, "baseTaskContext", "tryClose")
+		if tcl == nil {
+			return "", fmt.Errorf("baseTaskContext.tryClose not found")
+		}
+		sb.WriteString("def taskTryCloseSteps : List String := " + LeanStrList(c19StepsKeep(tcl.Body, c19KeepBroker)) + "\n\n")
 		_, gcf, err := ParseFile(repo, "query/context/leaf_grouping_context.go")
 		if err != nil {
 			return "", err
